@@ -4,8 +4,9 @@ read correctly however the header bytes are chunked.
 Analysed (MIR): stream::AcceptRecvStream::poll_type, poll_next_varint and its error closure, VarInt::encoded_size. The stream
 is a string of up to MAXB symbolic bytes; the transport's answers to BufRecvStream::poll_read are explored as a fork at every
 call: Pending, a chunk of 1..3 bytes, FIN, RESET, connection error (at most EVENTS answers, at most POLLS polls of poll_type;
-after Pending the next poll follows). Contracts: the buffer (remaining / chunk()[0] / advance through VarInt::decode) is a
-window [consumed, delivered) over the symbolic bytes; VarInt::decode on the window = RFC 9000 16 (length from the two top
+after Pending the next poll follows). Contracts: the buffer (remaining / chunk() / advance through VarInt::decode) is a
+window [consumed, delivered) over the symbolic bytes kept as a list of transport chunks - chunk() is the rest of the first
+chunk only, as in BufList; VarInt::decode on the window = RFC 9000 16 (length from the two top
 bits of the first byte; Err(UnexpectedEnd) iff the window is shorter) — the real VarInt::decode is decided against the same
 rule by the Kani harnesses of C16. Decided on every path, for all byte values:
   * poll_type never reports an internal error (a varint can be incomplete, never malformed) and never panics;
@@ -65,6 +66,7 @@ def c_poll_read(events, maxchunk):
                 inner_ty = C.payload_type(dest_ty, "Ready") or "Result<bool, StreamErrorIncoming>"
                 if kind == "D":
                     w["delivered"] += k
+                    w["chunks"].append(k)      # BufList keeps one entry per transport chunk
                     return ex.make_enum(dest_ty, "Ready", [ex.make_enum(inner_ty, "Ok", [z3.BoolVal(False)])])
                 w["ended"] = True
                 if kind == "F":
@@ -91,7 +93,8 @@ def c_chunk(ex, st, key, argv, dest_ty, raw):
     def ap(ex, st, a):
         w = st.world
         sl = Obj("[u8]")
-        n = w["delivered"] - w["consumed"]
+        # Buf::chunk() of a BufList is the rest of its FIRST entry only, not everything that is buffered
+        n = w["chunks"][0] if w["chunks"] else 0
         ex.field(sl, "meta", 0, "usize").v = bv(n)
         for i in range(min(n, 2)):
             ex.field(sl, "elem", i, "u8").v = w["bytes"][w["consumed"] + i]
@@ -120,6 +123,13 @@ def c_varint_decode(ex, st, key, argv, dest_ty, raw):
                 v = varint_value(w["bytes"], w["consumed"], size)
                 w["decoded"].append((w["consumed"], size))
                 w["consumed"] += size
+                left = size
+                while left:
+                    take = min(left, w["chunks"][0])
+                    w["chunks"][0] -= take
+                    left -= take
+                    if w["chunks"][0] == 0:
+                        w["chunks"].pop(0)
                 o = Obj("proto::varint::VarInt")
                 ex.field(o, None, 0, "u64").v = v
                 return ex.make_enum(dest_ty, "Ok", [o])
@@ -168,7 +178,7 @@ def check(L, tier, log, samples):
     acc = Obj("stream::AcceptRecvStream<S, B>")
     # AcceptRecvStream::new: ty, id, expected = None (field order read from the constructor's MIR)
     st.world.update({"bytes": [z3.BitVec(f"stream_byte_{i}", 8) for i in range(MAXB + 4)], "delivered": 0, "consumed": 0,
-                     "script": [], "ended": False, "exhausted": False, "decoded": [], "decode_short": False})
+                     "script": [], "ended": False, "exhausted": False, "decoded": [], "decode_short": False, "chunks": []})
     fields = field_indices(L)
     acc.fields[(None, fields["ty"])] = Cell(ex.make_enum("std::option::Option<proto::stream::StreamType>", "None"))
     acc.fields[(None, fields["id"])] = Cell(ex.make_enum("std::option::Option<proto::varint::VarInt>", "None"))
